@@ -106,6 +106,18 @@ def _size(e: ast.AST) -> int:
     return sum(1 for _ in ast.walk(e))
 
 
+def calls_in(e: Optional[ast.AST]) -> List[ast.Call]:
+    if e is None:
+        return []
+    out = []
+    for n in ast.walk(e):
+        if isinstance(n, (ast.Lambda, ast.GeneratorExp, ast.ListComp, ast.SetComp, ast.DictComp)):
+            continue
+        if isinstance(n, ast.Call):
+            out.append(n)
+    return out
+
+
 class PathWalker:
     def __init__(self, mod: Optional[Module] = None, cls: Optional[ast.ClassDef] = None, inline_depth: int = 2,
                  no_inline: Optional[set] = None):
@@ -132,8 +144,11 @@ class PathWalker:
         if self.mod is None:
             return None
         f = call.func
-        if (dotted(f) or "").split(".")[-1] in self.no_inline:
+        nm = (dotted(f) or "").split(".")[-1]
+        if nm in self.no_inline:
             return None
+        if not (nm.startswith("_") and not nm.startswith("__")) and not (isinstance(f, ast.Name) and f.id in self.local_defs):
+            return None  # only private helpers and closures are followed
         if isinstance(f, ast.Name) and f.id in self.local_defs:
             fn = self.local_defs[f.id]
             return (fn, False) if not fn.decorator_list and self.inlinable(fn) else None
@@ -224,15 +239,18 @@ class PathWalker:
                             kind = "return" if p.kind in ("return", "end") else p.kind
                             yield conds + p.conds, env, calls + p.calls, kind, p.value, p.node or st
                         return
-            yield conds, env, calls, "return", subst(st.value, env), st
+            rv = subst(st.value, env)
+            yield conds, env, calls + calls_in(rv), "return", rv, st
             return
         if isinstance(st, ast.Raise):
             yield conds, env, calls, "raise", subst(st.exc, env), st
             return
         if isinstance(st, ast.If):
             test = subst(st.test, env)
+            tcalls = [c for c in calls_in(st.test)]  # calls written in the test itself (not those substituted in)
+            tcalls = [subst(c, env) for c in tcalls]
             for pol, body in ((True, st.body), (False, st.orelse)):
-                for c, e, k, kind, value, node in self.block(list(body), conds + [(test, pol)], dict(env), list(calls), depth):
+                for c, e, k, kind, value, node in self.block(list(body), conds + [(test, pol)], dict(env), list(calls) + tcalls, depth):
                     if kind == "end":
                         yield from cont(c, e, k)
                     else:
@@ -270,12 +288,16 @@ class PathWalker:
                     if isinstance(sv_s, (ast.Tuple, ast.List)) and len(sv_s.elts) == len(t.elts) and all(isinstance(x, ast.Name) for x in t.elts):
                         for x, y in zip(t.elts, sv_s.elts):
                             e2[x.id] = y  # type: ignore[attr-defined]
+                    elif all(isinstance(x, ast.Name) for x in t.elts) and isinstance(sv_s, (ast.Name, ast.Attribute, ast.Subscript)):
+                        # a, b, c = seq  ->  a = seq[0], b = seq[1], c = seq[2]
+                        for i, x in enumerate(t.elts):
+                            e2[x.id] = ast.Subscript(value=clone(sv_s), slice=ast.Constant(value=i), ctx=ast.Load())  # type: ignore[attr-defined]
                     else:
                         for n in ast.walk(t):
                             if isinstance(n, ast.Name):
                                 e2[n.id] = UNKNOWN
                 # attribute / subscript stores do not change locals
-            yield from cont(conds, e2, calls)
+            yield from cont(conds, e2, calls + [subst(c, env) for c in calls_in(value)])  # type: ignore[misc]
             return
         if isinstance(st, ast.AugAssign):
             e2 = dict(env)
